@@ -237,7 +237,7 @@ func checkC05(c *core.Check) {
 					for _, meth := range m.Ms {
 						caseN++
 						rc := mkReq(fmt.Sprintf("c%d", caseN), meth, fill(ch), nil, a)
-						rc.Script = driver.Script{Parse: true}
+						rc.Script = driver.Script{Parse: true, Reparse: true}
 						if caseN%3 == 0 {
 							rc.RawPath = fillRaw(ch)
 						}
